@@ -115,6 +115,9 @@ fn run<T: Sc>(case: &TrajCase) -> Check {
         Some(_) => "eps:positive",
     });
     out.class(case.base.flavour());
+    for r in case.base.regime() {
+        out.class(r);
+    }
     if case.lm.is_some() {
         out.class("history:optimizer");
     }
@@ -148,6 +151,9 @@ impl Property for C01 {
     }
     fn strategy(&self, _tier: Tier) -> BoxedStrategy<TrajCase> {
         traj_strategy(CaseCfg::default(), 3, 5).boxed()
+    }
+    fn pool_of(&self, case: &Self::Case) -> Option<usize> {
+        case.base.pool_size()
     }
     fn check(&self, case: &TrajCase) -> Check {
         if case.base.f32 {
